@@ -67,6 +67,9 @@ TARGETS = {
              'domain_id': 'd1'},
     'nested': {'target': {'project': {'id': 'p1'}}, 'project_id': 'other',
                'user_id': 'u1'},
+    # target files that flatten to an empty mapping are still targets
+    'empty': {},
+    'empty-nested': {'target': {}, 'other': {'deep': {}}},
 }
 REQUESTS = [None, 'svc:get', 'svc:nope', 'plain']
 
